@@ -955,9 +955,16 @@ func c15RunFirst(p *Prog, r *Report, rule string) {
 			r.Undecided(rule, k, "", "constructor not found")
 			continue
 		}
-		f := p.FlatOf(fi)
+		// the constructor with its stage helpers spliced in
+		f := p.FlatInl(fi)
 		runs := f.CallNodes(kPoolRun)
 		uses := f.CallNodes(kPoolSched, kPoolSend, kPoolStop, "(*internal/usecase/cleaner.UseCase).DeleteFilesAsync", "(*internal/usecase/cleaner.UseCase).DeleteOld")
+		if len(runs) == 0 {
+			if p.funcCallsDeep(fi, p.keysPred(kPoolRun)) {
+				r.Undecided(rule, k+"#run-first", p.pos(fi.Decl), "Pool().Run is called somewhere the rule cannot order against the other uses of the pool")
+				continue
+			}
+		}
 		ok := len(runs) > 0
 		for _, u := range uses {
 			if !f.MustPrecede(setOf(runs), u) {
